@@ -24,6 +24,8 @@ The FORMULA lines evaluate the symbolic trees generated from distance.go / pured
                                                     the dot distance over the pure Go dot loop (d), as generated; compared with the tables of a real Fit()
   pqg <e|d> <NS> <K> <L> <flat> <cdists> <x:words32> <cx:bytes> <cy:bytes>  -> hex32|nan hex32|nan   both distances of a quantiser fitted like that
                                                     (tables from the generated Fit bodies, <cdists> is NOT read): DistanceFromFloat(x)(cy), DistanceFromPoint(cx)(cy)
+  pqe <e|d> <NS> <K> <L> <flat:words32|-> <vector:words32>  -> bytes   the GENERATED encode (PQEncode.lean, float32 abstract) instantiated with hardware
+                                                    floats and the pure Go sub-vector distance as generated: the codes, first nearest centroid wins
   bqw <hamming|jaccard> <thr|-> <x> <y> (words32) <fk:hex32>  -> hex32 hex32   the two distance closures of the binary quantiser as
                                                     generated (which distance is used: bit distance of the encodings when a threshold is
                                                     set, else the float distance, whose real value is fk); encode / hamming / jaccard generated
@@ -34,6 +36,7 @@ import SemaModel.C20.Model
 import SemaModel.Generated.BitDist
 import SemaModel.Generated.Distance
 import SemaModel.Generated.PQDist
+import SemaModel.Generated.PQEncode
 import SemaModel.Generated.BQDist
 namespace Sema.C20
 open Sema Sema.Gen
@@ -110,6 +113,12 @@ def fitModel (tag : String) (ns k l : Nat) (flat : List (BitVec 32)) : Option PQ
         | .outOfFuel => none
         | .ret pq2 => some pq2) (some pq0)
 
+def f32OfBits (b : BitVec 32) : Float32 := Float32.ofBits b.toNat.toUInt32
+def bitsOfF32 (f : Float32) : BitVec 32 := BitVec.ofNat 32 f.toBits.toNat
+/-- the pure Go sub-vector distance on hardware floats: the generated tree over the operands' bit patterns, evaluated -/
+def pureDistF (tag : String) (a b : List Float32) : Float32 := (pureDist tag (fvars (a.map bitsOfF32)) (fvars (b.map bitsOfF32))).eval
+def hexBytes (l : Bytes) : String := if l.isEmpty then "-" else String.join (l.map fun b => hexOfNat 2 b.toNat)
+
 def hexFs (l : List Go.FExpr) : String := if l.isEmpty then "-" else String.join (l.map fun e => hexF32 e.eval)
 
 def step (line : String) : String :=
@@ -160,6 +169,13 @@ def step (line : String) : String :=
       | some ns, some k, some cd, some cx, some cy =>
         let pq : PQDist.productQuantizer := ⟨⟨k, ns, 0⟩, fun _ _ => .lit 0, 0, fvars cd, []⟩
         outF (PQDist.pq_lookupFromPoint pq ⟨[], cx⟩ ⟨[], cy⟩)
+      | _, _, _, _, _ => bad
+  | ["pqe", tag, ns, k, l, flat, v] => match ns.toNat?, k.toNat?, l.toNat?, words32? flat, words32? v with
+      | some ns, some k, some l, some flat, some v =>
+        let pq : PQEncode.productQuantizer Float32 := ⟨⟨k, ns, 0⟩, pureDistF tag, l, flat.map f32OfBits⟩
+        match PQEncode.productQuantizer_encode (f32OfBits 0x7f7fffff#32) pq (v.map f32OfBits) with
+        | .ret codes => hexBytes codes
+        | .outOfFuel => "out-of-fuel"
       | _, _, _, _, _ => bad
   | ["pqt", tag, ns, k, l, flat] => match ns.toNat?, k.toNat?, l.toNat?, words32? flat with
       | some ns, some k, some l, some flat =>
